@@ -92,7 +92,7 @@ CHECKS = {
         technique='Lean 4 proof over a hand-written executable model, tied to /repo on every run by differential correspondence (compiled Lean driver vs real code on generated inputs) and regenerated source tables; independent Python oracle searches for failing inputs',
         ref='§4 C16'),
     'C17': dict(
-        text='The property is the absence of writes. Theorems: with the two heap effects readOnly / allocOnly every object and every path query of the input is unchanged, also after the caller edits the returned copy, for any sequence of calls; the model's heap transformers (deep copy, shallow copy / cast, execution of generated code) are proved allocOnly. Which effect each of the 53 entry points has is checked, not proved: the correspondence encodes the input before and after every call (six configuration flavours) and compares with applyEffect; returned copies are edited.',
+        text='The property is the absence of writes. Theorems: with the two heap effects readOnly / allocOnly every object and every path query of the input is unchanged, also after the caller edits the returned copy, for any sequence of calls; the heap transformers of the model (deep copy, shallow copy / cast, execution of generated code) are proved allocOnly. Which effect each of the 53 entry points has is checked, not proved: the correspondence encodes the input before and after every call (six configuration flavours) and compares with applyEffect; returned copies are edited.',
         note=TB + 'Partial by nature: membership of each API in the two effects is established on generated inputs only.',
         technique='Lean 4 proof over a hand-written executable model, tied to /repo on every run by differential correspondence (compiled Lean driver vs real code on generated inputs) and regenerated source tables; independent Python oracle searches for failing inputs',
         ref='§4 C17'),
